@@ -7,7 +7,7 @@
 (* outcome as one JSON line, which `vdrive inserttxn` replays on the real  *)
 (* library by arming the corresponding failpoints.                         *)
 (***************************************************************************)
-EXTENDS InsertTxnOps, Json
+EXTENDS InsertTxnRun, Json
 
 CONSTANTS MaxPert,        \* perturbation retries (the library passes 1)
           Ns,             \* values of N for the EveryN policies
